@@ -217,10 +217,11 @@ def from_param_field(name, *fields, exact=True):
     return pred
 
 
-def from_call(*callees):
+def from_call(*callees, whole=True):
+    """subject predicate: the value IS the result of one of these calls (whole=True: not a field/payload of it)"""
     def pred(origins, _x=None):
         for o in origins:
-            if o[0] == "call" and ends(o[1], *callees):
+            if o[0] == "call" and ends(o[1], *callees) and (not whole or not o[3]):
                 return True
         return False
     return pred
@@ -402,3 +403,41 @@ def actor_arms(B, F, action_adt):
             region = B.reach([tg], cut_blocks=[sb])
             out[n] = (sb, tg, region)
     return out
+
+
+def loop_headers(B):
+    """targets of back edges (DFS) in the live, non-cleanup CFG"""
+    heads = set()
+    color = {}
+    stack = [(0, iter(B.succ(0)))]
+    color[0] = 1
+    while stack:
+        b, it = stack[-1]
+        adv = False
+        for tg, _ in it:
+            c = color.get(tg, 0)
+            if c == 0:
+                color[tg] = 1
+                stack.append((tg, iter(B.succ(tg))))
+                adv = True
+                break
+            elif c == 1:
+                heads.add(tg)
+        if not adv:
+            color[b] = 2
+            stack.pop()
+    return heads
+
+
+def outer_loop_header(B, block):
+    """the loop header that dominates `block` and is closest to the entry (outermost enclosing loop)"""
+    cands = []
+    for h in loop_headers(B):
+        if h != block and B.path([0], [block], cut_blocks=[h]) is None and block in B.reach([h]) and h in B.reach([block]):
+            cands.append(h)
+    best = None
+    for h in cands:
+        # outermost = not dominated by another candidate
+        if all(h == o or B.path([0], [h], cut_blocks=[o]) is not None for o in cands):
+            best = h
+    return best
